@@ -38,6 +38,9 @@ type command struct {
 	id  string
 	rpc *goatorepo.Rpc
 	err error
+	// from is the connection which failed (err != nil): a newer connection
+	// attached under the same id must not be removed on its behalf.
+	from *proxyClient
 }
 
 type proxyClient struct {
@@ -112,7 +115,9 @@ func (p *Proxy) serveClients(ctx context.Context) {
 				p.forwardRpc(cmd.id, cmd.rpc)
 			} else if cmd.err != nil {
 				p.mutex.Lock()
-				delete(p.clients, cmd.id)
+				if cur, ok := p.clients[cmd.id]; ok && (cmd.from == nil || cur == cmd.from) {
+					delete(p.clients, cmd.id)
+				}
 				p.mutex.Unlock()
 				if p.clientDisconnect != nil {
 					p.clientDisconnect(cmd.id, cmd.err)
@@ -182,7 +187,7 @@ func (c *proxyClient) readLoop(ctx context.Context) error {
 	for {
 		rpc, err := c.conn.Read(ctx)
 		if err != nil {
-			c.toServer <- command{id: c.id, err: err}
+			c.toServer <- command{id: c.id, err: err, from: c}
 			return errors.Wrap(err, "failed to read from connection")
 		}
 
@@ -201,7 +206,7 @@ func (c *proxyClient) writeLoop(ctx context.Context) error {
 
 			err := c.conn.Write(ctx, rpc)
 			if err != nil {
-				c.toServer <- command{id: c.id, err: err}
+				c.toServer <- command{id: c.id, err: err, from: c}
 				return errors.Wrap(err, "failed to write to connection")
 			}
 		case <-ctx.Done():
@@ -222,7 +227,7 @@ func (c *proxyClient) connect(ctx context.Context, newConnection NewConnection) 
 
 	c.conn, err = newConnection(c.id)
 	if err != nil {
-		c.toServer <- command{id: c.id, err: err}
+		c.toServer <- command{id: c.id, err: err, from: c}
 		return
 	}
 
